@@ -464,8 +464,24 @@ def frontEnd (pg : Prog) : Except FrontErr (List PipeDef) :=
   -- `addStage` numbers the functions over helpers ++ entries, like `funcs` in `buildOne`
   parseFile fns [] (itemsOf pg fnOf srcs)
 
+def showLayer : Layer → String
+  | .mod => "M"
+  | .arr (some n) => "A" ++ toString n
+  | .arr none => "A?"
+  | .obj k => "O:" ++ k.name
+  | .other => "X"
+
+/-- `C05.layers`: the layer chain the typer gives every resource global of the request (harness: the real
+    `type_check` on the resource declarations alone) -/
+def layersOf (rs : List Res) : String :=
+  "L[" ++ ";".intercalate ((rs.filter (!·.cb)).map fun r => r.name ++ "=" ++ ".".intercalate (r.ty.layers.map showLayer)) ++ "]"
+
 def handle (op : String) (args : List String) : String :=
   match op, args with
+  | "C05.layers", [_, _, _, rs, _, _, _] =>
+    match sequenceOpt ((splitList rs ";").map parseRes) with
+    | some rs => layersOf rs
+    | none => "bad-request"
   | "C05.meta", [tgt, mode, gl, rs, hs, es, ps] =>
     match targetParams tgt, parseGlobals gl, sequenceOpt ((splitList rs ";").map parseRes),
           sequenceOpt ((splitList hs ";").map parseHelper), sequenceOpt ((splitList es ";").map parseEntry),
